@@ -102,19 +102,13 @@ def parseKE (d : Bytes) : Res Body := do
   need Gen.Codec.guard_ke d.length 4
   pure (.ke (u16 d 0) (d.drop 4))
 
-/-- the attribute loop of `Transform.parse`: 4 octets per step, structural progress. -/
-def parseAttrs (rest : Bytes) : Res (Option Nat) :=
-  if h : rest = [] then .ok none
-  else if rest.length < 4 then
-    (if Gen.Codec.guard_transform_attr then .invalidSyntax else .py .structError)
-  else
-    if u16 rest 0 % 32768 == 14 then .ok (some (u16 rest 2))
-    else parseAttrs (rest.drop 4)
-termination_by rest.length
-decreasing_by
-  simp only [List.length_drop]
-  have : rest.length ≠ 0 := by intro h0; exact h (List.eq_nil_of_length_eq_zero h0)
-  omega
+/-- the attribute loop of `Transform.parse`: 4 octets per step (structural recursion:
+    the loop terminates because every iteration consumes four octets). -/
+def parseAttrs : Bytes → Res (Option Nat)
+  | [] => .ok none
+  | a :: b :: c :: d :: rest =>
+      if (a * 256 + b) % 32768 = 14 then .ok (some (c * 256 + d)) else parseAttrs rest
+  | _ => if Gen.Codec.guard_transform_attr then .invalidSyntax else .py .structError
 
 def parseTransform (d : Bytes) : Res Transform := do
   need Gen.Codec.guard_transform_hdr d.length 4
@@ -223,6 +217,12 @@ def parseBody (ptype : Nat) (d : Bytes) : Option (Res Body) :=
   else if ptype = 46 then some (.ok (.sk d 0))
   else none
 
+/-- what `PayloadSK.parse` itself returns: the inner type is annotated afterwards -/
+def unSK (b : Body) : Body :=
+  match b with
+  | .sk ct _ => .sk ct 0
+  | b => b
+
 /-- an SK payload remembers the type of the first inner payload and ends the chain -/
 def fixSK (b : Body) (next : Nat) : Body :=
   match b with
@@ -251,7 +251,7 @@ def parseChain : Nat → Bytes → Nat → List Payload → Res (List Payload)
     else do
       need Gen.Codec.guard_chain_hdr rest.length 4
       let next := u8 rest 0
-      let critical := decide (u8 rest 1 ≥ 128)
+      let critical := Nat.ble 128 (u8 rest 1)
       let length := u16 rest 2
       if Gen.Codec.chain_minlen_check ∧ length < 4 then .invalidSyntax
       else
@@ -269,8 +269,8 @@ def parseChain : Nat → Bytes → Nat → List Payload → Res (List Payload)
 def parseHeader (d : Bytes) : Res Header := do
   need Gen.Codec.guard_msg_hdr d.length 28
   pure { spiI := d.take 8, spiR := slice d 8 16, major := u8 d 17 / 16, minor := u8 d 17 % 16,
-         exch := u8 d 18, isResp := decide (u8 d 19 / 32 % 2 = 1), higher := decide (u8 d 19 / 16 % 2 = 1),
-         isInit := decide (u8 d 19 / 8 % 2 = 1), msgId := u32 d 20 }
+         exch := u8 d 18, isResp := Nat.ble 1 (u8 d 19 / 32 % 2), higher := Nat.ble 1 (u8 d 19 / 16 % 2),
+         isInit := Nat.ble 1 (u8 d 19 / 8 % 2), msgId := u32 d 20 }
 
 /-- `PayloadSK.decrypt` followed by the unpadding slice.  With the repair
     (`sk_len_check`) lengths are validated first; without it the library's
@@ -287,6 +287,14 @@ def decryptSK (c : CryptoCtx) (ct : Bytes) : Res (Bytes × Bytes) :=
       let padlen := pt.getD (pt.length - 1) 0
       pure (iv, pt.take (pt.length - (1 + padlen)))
 
+/-- the SK branch of `Message.parse`: integrity first, then decryption, then the inner chain -/
+def finishSK (c : CryptoCtx) (d : Bytes) (h : Header) (clearPs : List Payload) (ct : Bytes) (inner : Nat) : Res Msg :=
+  if c.mac (dropLast d c.icvLen) ≠ takeLast d c.icvLen then .invalidSyntax
+  else do
+    let (iv, clear) ← decryptSK c ct
+    let innerPs ← parseChain (clear.length + 1) clear inner []
+    pure { hdr := h, payloads := clearPs, enc := innerPs, iv := some iv }
+
 /-- `Message.parse(data, header_only, crypto)` -/
 def parseMsg (d : Bytes) (headerOnly : Bool) (crypto : Option CryptoCtx) : Res Msg := do
   let h ← parseHeader d
@@ -295,13 +303,12 @@ def parseMsg (d : Bytes) (headerOnly : Bool) (crypto : Option CryptoCtx) : Res M
     let body := d.drop 28
     let ps ← parseChain (body.length + 1) body (u8 d 16) []
     match crypto, ps.getLast? with
-    | some c, some { ptype := 46, body := .sk ct inner, .. } =>
-        if c.mac (dropLast d c.icvLen) ≠ takeLast d c.icvLen then .invalidSyntax
-        else do
-          let (iv, clear) ← decryptSK c ct
-          let inner ← parseChain (clear.length + 1) clear inner []
-          pure { hdr := h, payloads := ps.dropLast, enc := inner, iv := some iv }
-    | _, _ => pure { hdr := h, payloads := ps, enc := [], iv := none }
+    | some c, some { ptype := 46, body := .sk ct inner, .. } => finishSK c d h ps.dropLast ct inner
+    | some _, _ =>
+        -- a key context was given but the message carries no SK payload: only IKE_SA_INIT may be in the clear
+        if Gen.Codec.require_sk ∧ h.exch ≠ 34 then .invalidSyntax
+        else pure { hdr := h, payloads := ps, enc := [], iv := none }
+    | none, _ => pure { hdr := h, payloads := ps, enc := [], iv := none }
 
 /-! ### serialisation -/
 
@@ -342,11 +349,14 @@ def encBody : Body → Bytes
   | .ts sels => [sels.length % 256, 0, 0, 0] ++ (sels.map encSel).flatten
   | .sk ct _ => ct
 
+/-- what the last generic header of a chain says comes next -/
+def lastNext (p : Payload) : Nat := match p.body with | .sk _ inner => inner | _ => 0
+
 /-- `Message._payloads_to_bytes` -/
 def encChain : List Payload → Bytes
   | [] => []
   | [p] =>
-      let next := match p.body with | .sk _ inner => inner | _ => 0
+      let next := lastNext p
       let bd := encBody p.body
       [next % 256, 0] ++ w16 (bd.length + 4) ++ bd
   | p :: q :: rest =>
